@@ -381,6 +381,12 @@ func runC09(r *Run) {
 		}
 		exec(ops, c%8 == 7)
 	}
+	// manager level: the registration sites of account/manager.go (a renewal
+	// must re-register the expiry with the real watcher controller: no expiry
+	// is handled between the old and the new height, exactly one afterwards);
+	// real account manager + real watcher.Controller, see c09_manager.go
+	c09ManagerScenarios(r)
+
 	// stray late hand-offs would indicate a missed wait
 	time.Sleep(5 * time.Millisecond)
 	if s := hd.drain(); len(s) > 0 {
